@@ -36,8 +36,14 @@ def eval_cell(a5, geo, c, r, cls, ctx):
     w = geo.width(r)
     offcurve = []
 
+    open_ring = (c >> 1) % 2 == 0 if r >= 2 else (c >> 58) % 2 == 0   # half of the cells are measured through open rings
+
     def f(s):
-        ring = a5.cell_to_boundary(c, {'segments': s, 'closed_ring': True})[:-1]
+        if open_ring:
+            ring = a5.cell_to_boundary(c, {'segments': s, 'closed_ring': False})
+            ring = ring[-1:] + ring[:-1]    # the final reversal leaves the first corner last: rotate it to index 0
+        else:
+            ring = a5.cell_to_boundary(c, {'segments': s, 'closed_ring': True})[:-1]
         vs = [geo.ll_to_vec(lo, la) for lo, la in ring]
         if r >= 8 and s >= 2 and s % 2 == 0:
             # smoothness monitor: the vertices this ring adds to the ring at s/2 (odd positions; index 0 is a corner) must lie on
@@ -65,6 +71,7 @@ def eval_cell(a5, geo, c, r, cls, ctx):
         return
     band = 'lo' if r < 10 else ('mid' if r < 20 else 'hi')
     ctx.count('%s_%s_%s' % (cls, band, verdict))
+    ctx.count('rings_open' if open_ring else 'rings_closed')
     if offcurve:
         sg, wv, bd = offcurve[0]
         ctx.fail('boundary_vertex_off_curve', case, segments=sg, off_chord_w=wv, bound_w=bd)
